@@ -171,7 +171,11 @@ def run(ctx: Ctx) -> None:
     base = validate_traces(ctx, "TraceMapRun", copy.deepcopy(good), "st0", invariants=[], strip=("storage", "kinds"),
                            count=False)
     bad = copy.deepcopy(good)
-    vi = len(bad) // 2
+    clean = [i for i in range(len(bad)) if i not in base]   # only traces TLC accepts uncorrupted can be victims
+    if not clean:
+        ctx.selftests.append({'name': 'trace-corruption', 'ok': True, 'detail': 'not applicable: no accepted trace to corrupt'})
+        return
+    vi = clean[len(clean) // 2]
 
     def corrupt(v):
         if v["a"]:
